@@ -173,6 +173,24 @@ PRESETS = {
 def preset_value(F, name, depth=0):
     f = F.fn("crate::utils::sanitize::Sanitizer::" + name)
     if f is None or depth > 3: return None
+    # the constant the constructor evaluates to, through delegation (`Self::str(Some(DOT), ..)`, `..Self::with_target(t)`)
+    if depth == 0 and f.nargs == 0:
+        try:
+            import absint
+            v = absint.Eval(F, {}).fn_eval(f, [])
+            if isinstance(v, tuple) and v[0] == "struct":
+                out = {}
+                def plain(x):
+                    if isinstance(x, tuple) and x[0] == "Some": return plain(x[1])
+                    if isinstance(x, tuple) and x[0] == "None": return None
+                    if isinstance(x, tuple) and x[0] == "str": return x[1]
+                    if isinstance(x, tuple) and x[0] == "variant": return str(x[1]).split("::")[-2] + "::" + str(x[1]).split("::")[-1]
+                    if isinstance(x, (bool, int)): return x
+                    raise absint.Unknown("value %r" % (x,))
+                for k, x in v[2].items(): out[k] = plain(x)
+                return out
+        except (absint.Unknown, absint.Diverges, absint.NeedAtom):
+            pass
     ps = [p for p in mir.enum_paths(f) if f.blocks[p[-1]]["t"][0] == "ret"]
     if len(ps) != 1: return None
     r = mir.SymPath(f, ps[0]).ret()
